@@ -911,6 +911,49 @@ def gen_sql() -> str:
     return "\n".join(txt)
 
 
+# ---------------------------------------------------------------- python handler tables (C17)
+
+def gen_pycli() -> str:
+    m = parse_file("cli/python.py")
+    fwa = sorted(set(table(m, "FLAGS_WITH_ARG", "python FLAGS_WITH_ARG")))
+    safe = sorted(set(table(m, "SAFE_FLAGS", "python SAFE_FLAGS")))
+    sizes = {}
+    for name in ("SAFE_MODULES", "DANGEROUS_MODULES", "DANGEROUS_BUILTINS", "DANGEROUS_ATTRS", "SAFE_BUILTINS"):
+        v = module_assign(m, name)
+        xs = const_strs(v) if v is not None else None
+        if xs is None:
+            MISSING.append("python " + name)
+            xs = []
+        sizes[name] = sorted(set(xs))
+    # file gates of analyze_python_file: the suffix tuple and the size limit
+    suffixes, limit = [], 0
+    f = find_func(m, "analyze_python_file")
+    if f is not None:
+        for n in ast.walk(f):
+            if isinstance(n, ast.Compare) and isinstance(n.ops[0], ast.NotIn) and isinstance(n.comparators[0], ast.Tuple):
+                suffixes = const_strs(n.comparators[0]) or []
+            if isinstance(n, ast.Compare) and isinstance(n.ops[0], ast.Gt) and isinstance(n.comparators[0], ast.Constant) and isinstance(n.comparators[0].value, int):
+                limit = n.comparators[0].value
+    if not suffixes or not limit:
+        MISSING.append("analyze_python_file gates")
+    txt = [
+        "-- GENERATED by harness/gen_tables.py from src/dippy/cli/python.py. Do not edit.",
+        "namespace Dippy.Generated.PyCli",
+        "",
+        "def flagsWithArg : List String := " + lean_list(fwa),
+        "def safeFlags : List String := " + lean_list(safe),
+        "def scriptSuffixes : List String := " + lean_list(suffixes),
+        "def sizeLimit : Nat := %d" % limit,
+        "def safeModules : List String := " + lean_list(sizes["SAFE_MODULES"]),
+        "def dangerousModules : List String := " + lean_list(sizes["DANGEROUS_MODULES"]),
+        "def dangerousBuiltins : List String := " + lean_list(sizes["DANGEROUS_BUILTINS"]),
+        "",
+        "end Dippy.Generated.PyCli",
+        "",
+    ]
+    return "\n".join(txt)
+
+
 def main() -> int:
     changed = []
     files = {
@@ -922,6 +965,7 @@ def main() -> int:
         "State.lean": gen_state(),
         "Statusline.lean": gen_statusline(),
         "Sql.lean": gen_sql(),
+        "PyCli.lean": gen_pycli(),
     }
     miss = (
         "-- GENERATED. Tables the translator could not find where it expected them.\n"
